@@ -14,6 +14,7 @@ CMDS = ['put', 'list', 'restore', 'empty', 'empty-days', 'rm']
 def config(tier):
     return {
         'level': 'exploration',
+        'cold_sample': 4 if tier == 'quick' else 30,
         'real_sample': 6 if tier == 'quick' else 40,
         'cases': 3000 if tier == 'quick' else 40000,
         'budget_s': 50 if tier == 'quick' else 560,
